@@ -221,12 +221,14 @@ def render_module(mod, top: str) -> str:
     return ("\n".join(lines) + "\n").replace("$TOP", top)
 
 
-def render(case, top: str) -> dict[str, str]:
-    """{relative file name: text} below the search path."""
+def render(case, top: str, stubs=()) -> dict[str, str]:
+    """{relative file name: text} below the search path. Modules whose path is in `stubs` are written as `.pyi`
+    (stub-only modules / `__init__.pyi` packages: same text; CPython cannot import them, Griffe loads them)."""
     files = {}
     for mod in case["mods"]:
         rel = top + ("/" + mod["path"].replace(".", "/") if mod["path"] else "")
-        rel += "/__init__.py" if mod["pkg"] else ".py"
+        ext = ".pyi" if mod["path"] in stubs else ".py"
+        rel += "/__init__" + ext if mod["pkg"] else ext
         files[rel] = render_module(mod, top)
     return files
 
